@@ -406,6 +406,7 @@ class Ctx:
                     self.samples.append(x)
         else:
             # keep the trace prefix for replay
+            os.makedirs(REPLAYS, exist_ok=True)
             keep = os.path.join(REPLAYS, '%s-%s-trace-%d-%s.json' % (self.prop, self.fam, self.seed, recorder))
             lines = [l for l in open(tp) if l.strip()]
             m = r['matched'] if r['matched'] is not None else 0
